@@ -67,6 +67,23 @@ Theorem C10_removal_sets_marker : forall lg ft (s0 s1 : gmap (list (list N)) mem
     wf s0'.
 Proof. exact remove_lower_file_sets_marker. Qed.
 
+(** a file that BOTH layers have (overwritten, appended to or re-created through the overlay): removing
+    it deletes the upper copy and sets the marker - without the marker the lower copy would show
+    through; nothing else changes *)
+Theorem C10_removing_a_shadowing_file : forall lg ft (s0 s1 : gmap (list (list N)) memfile) hs (p : path) g,
+  wf s0 -> p <> [] ->
+  s0 !! whiteout_path (v0, []) p = None -> s0 !! p = Some g -> f_type g = File ->
+  whiteout_path (v0, []) p <> p ->
+  Forall (not_file s0) (prefixes (removelast (whiteout_path (v0, []) p))) ->
+  p ∉ prefixes (removelast (whiteout_path (v0, []) p)) ->
+  exists s0',
+    run bhandler (ovl_impl (v0, []) [(v1, [])] (CRemoveFile p)) (mstore2 s0 s1 hs lg ft) =
+      (mstore2 s0' s1 (hs ++ [HClosed]) lg ft, Ok tt) /\
+    s0' !! p = None /\ is_Some (s0' !! whiteout_path (v0, []) p) /\
+    (forall q, q <> p -> q ∉ prefixes (whiteout_path (v0, []) p) -> s0' !! q = s0 !! q) /\
+    wf s0'.
+Proof. exact remove_shadowing_file_sets_marker. Qed.
+
 (** the same for a directory that exists only in the lower layer and whose entries have all been
     removed through the overlay (the last step of a remove_dir_all): remove_dir sets its marker,
     changes nothing else - the lower layer not at all -, after which C10_removed_is_absent applies *)
@@ -144,3 +161,4 @@ Print Assumptions C10_recreated_file_is_fresh.
 Print Assumptions C10_recreated_dir_clears_marker.
 Print Assumptions C10_recreated_dir_is_empty.
 Print Assumptions C10_dir_removal_sets_marker.
+Print Assumptions C10_removing_a_shadowing_file.
